@@ -81,6 +81,14 @@ func (ms *memstore) GetMeta(baseUrl HttpBaseUrl, bucket string, filename string)
 	f := ms.find(bucket, filename)
 	if f != nil {
 		meta := f.meta
+		if f.meta.Metadata != nil {
+			// Callers update the returned object in place (patch decodes the request
+			// body onto it); never hand out the stored map itself.
+			meta.Metadata = make(map[string]string, len(f.meta.Metadata))
+			for k, v := range f.meta.Metadata {
+				meta.Metadata[k] = v
+			}
+		}
 		InitMetaWithUrls(baseUrl, &meta, bucket, filename, uint64(len(f.data)))
 		return &meta, nil
 	}
